@@ -281,6 +281,25 @@ func checkC18(c *Ctx) {
 		}
 		okKind := first == m.want || (m.want == "RLock" && first == "Lock")
 		inEntry := firstIns != nil && firstIns.Block().Index == 0
+		// one section: no second acquire and no release in the middle (the only release is the deferred one),
+		// neither here nor in the helpers the method calls
+		nAcq, nRelDirect := 0, 0
+		for f := range P.ReachableModule([]*ssa.Function{m.fn}) {
+			if f.Pkg != m.fn.Pkg {
+				continue
+			}
+			for _, l := range lockCalls(f) {
+				switch {
+				case l.kind == "Lock" || l.kind == "RLock":
+					nAcq++
+				case !l.deferred:
+					nRelDirect++
+				}
+			}
+		}
+		if nAcq != 1 || nRelDirect != 0 {
+			inEntry = false
+		}
 		c.Check(okKind && inEntry, "C18-R1", "atomic-section("+P.FnKey(m.fn)+")", m.fn.Pos(), "the method body is one critical section opened in its entry block with "+m.want,
 			"the method does not open a single "+m.want+" critical section at its start (its steps would not be atomic)")
 	}
